@@ -136,7 +136,7 @@ def scenario_of(case):
             knobs["ops_after"] = rq["ops_after"]
         reqs.append(e2e.req(raw, **knobs))
         replies.append(rq["reply"])
-    sc = e2e.scenario("sys-%s" % case["n"], [e2e.conn(reqs, audit=case["record"])], rules=case["rules"], key=case["key0"],
+    sc = e2e.scenario("sys-%s" % case["n"], [e2e.conn(reqs, audit=case["record"], timeout_ms=30000)], rules=case["rules"], key=case["key0"],
                       default_reply={"status": MOCK_STATUS, "reason": "Mock", "body": "mock-default"})
     if case["dest"] in e2e.MOCKS:
         sc["replies"] = {case["dest"]: replies}
